@@ -1,7 +1,36 @@
 //! `axh exec`: read protocol commands from stdin, run them against the real ax code, print one
 //! output line per command (same vocabulary as the Lean driver).
 use crate::util::*;
+use ax_x86::auto::generated::SupportedMnemonic;
 use ax_x86::axecutor::Axecutor;
+use ax_x86::helpers::errors::AxError;
+use ax_x86::helpers::syscalls::Syscall;
+use ax_x86::state::hooks::HookResult;
+use ax_x86::state::registers::SupportedRegister as SR;
+use std::cell::RefCell;
+use std::convert::TryFrom;
+
+thread_local! {
+    /// event log written by the scripted hooks
+    static HOOK_LOG: RefCell<Vec<String>> = RefCell::new(Vec::new());
+}
+
+fn mnemonic_by_name(s: &str) -> Option<SupportedMnemonic> {
+    for m in iced_x86::Mnemonic::values() {
+        if format!("{:?}", m) == s {
+            return std::panic::catch_unwind(|| SupportedMnemonic::try_from(m).ok()).ok().flatten();
+        }
+    }
+    None
+}
+
+fn step_str(r: Result<bool, AxError>) -> String {
+    match r {
+        Ok(true) => "ok 1".into(),
+        Ok(false) => "ok 0".into(),
+        Err(_) => "err".into(),
+    }
+}
 use std::io::{BufRead, Write};
 use std::panic::{catch_unwind, AssertUnwindSafe};
 
@@ -42,6 +71,7 @@ impl Session {
     }
 
     fn do_new(&mut self, code: &[u8], start: u64, rip: u64) -> String {
+        HOOK_LOG.with(|l| l.borrow_mut().clear());
         match Axecutor::new(code, start, rip) {
             Ok(ax) => {
                 self.ax = Some(ax);
@@ -215,6 +245,208 @@ impl Session {
                         .collect::<Vec<_>>()
                         .join(" "),
                 )
+            }
+            ["dec", ..] => Some("-".into()),
+            ["step"] => {
+                let before = self.ax().verif_pipes();
+                let r = step_str(block_on(self.ax().step()));
+                // feedback for the model: descriptor numbers handed out by a pipe() call in this step
+                let after = self.ax().verif_pipes();
+                let newp: Vec<_> = after.iter().filter(|p| !before.iter().any(|q| q.0 == p.0)).collect();
+                if newp.len() == 1 {
+                    Some(format!("{} @fds={:x},{:x}", r, newp[0].0, newp[0].1))
+                } else {
+                    Some(r)
+                }
+            }
+            ["execute", _fuel] => Some(match block_on(self.ax().execute()) {
+                Ok(()) => "ok".into(),
+                Err(_) => "err".into(),
+            }),
+            ["maxinstr", n] => {
+                let n = parse_hex(n)?;
+                self.ax().set_max_instructions(n);
+                Some("-".into())
+            }
+            ["setflags", v] => {
+                let v = parse_hex(v)?;
+                self.ax().verif_set_rflags(v);
+                Some("-".into())
+            }
+            ["setseg", which, v] => {
+                let v = parse_hex(v)?;
+                match *which {
+                    "fs" => self.ax().write_fs(v),
+                    "gs" => self.ax().write_gs(v),
+                    _ => return None,
+                }
+                Some("-".into())
+            }
+            ["setxmm", i, v] => {
+                let i: usize = i.parse().ok()?;
+                let v = parse_hex128(v)?;
+                self.ax().reg_write_128(XMM[i], v).ok()?;
+                Some("-".into())
+            }
+            ["xmms"] => {
+                let ax = self.ax();
+                let v: Vec<String> = XMM.iter().map(|r| format!("{:x}", ax.reg_read_128(*r).unwrap())).collect();
+                Some(v.join(" "))
+            }
+            ["state"] => {
+                let ax = self.ax();
+                Some(format!(
+                    "fin={} count={} rip={:x} flags={:x} codeend={:x} stacktop={:x} running={} fs={:x} gs={:x}",
+                    ax.verif_finished() as u8,
+                    ax.verif_executed_instructions_count(),
+                    ax.reg_read_64(SR::RIP).ok()?,
+                    ax.verif_rflags(),
+                    ax.verif_code_end_addr(),
+                    ax.verif_stack_top(),
+                    ax.verif_hooks_running() as u8,
+                    ax.read_fs(),
+                    ax.read_gs()
+                ))
+            }
+            ["trace"] => {
+                let t = self.ax().verif_trace();
+                if t.is_empty() {
+                    return Some("none".into());
+                }
+                Some(
+                    t.iter()
+                        .map(|e| format!("{:x},{:x},{},{},{}", e.0, e.1, ["c", "r", "j"][e.2 as usize], e.3, e.4))
+                        .collect::<Vec<_>>()
+                        .join(" "),
+                )
+            }
+            ["callstack"] => {
+                let c = self.ax().verif_call_stack();
+                if c.is_empty() {
+                    return Some("none".into());
+                }
+                Some(c.iter().map(|a| format!("{:x}", a)).collect::<Vec<_>>().join(" "))
+            }
+            ["render"] => {
+                // the three renderers must return (Ok or Err) whatever the program did
+                let ax = self.ax();
+                let _ = ax.trace();
+                let _ = ax.call_stack();
+                let _ = ax.to_string();
+                Some("ok".into())
+            }
+            ["log"] => HOOK_LOG.with(|l| {
+                let l = l.borrow();
+                Some(if l.is_empty() { "none".to_string() } else { l.join(" ") })
+            }),
+            ["hook", phase, mn, id, outcome, edit] => {
+                let m = mnemonic_by_name(mn)?;
+                let id = id.to_string();
+                let phase_s = phase.to_string();
+                let outcome = outcome.to_string();
+                let edit: Option<(SR, u64)> = match edit.split_once('=') {
+                    Some((r, v)) => Some((reg_by_name(r)?, parse_hex(v)?)),
+                    None => None,
+                };
+                let cb: Box<dyn Fn(&mut Axecutor, SupportedMnemonic) -> Result<HookResult, Box<dyn std::error::Error>>> =
+                    Box::new(move |ax: &mut Axecutor, _| {
+                        let rip = ax.reg_read_64(SR::RIP)?;
+                        HOOK_LOG.with(|l| {
+                            l.borrow_mut().push(format!(
+                                "{}:{}:{:x}:{}:{}",
+                                id,
+                                phase_s,
+                                rip,
+                                ax.verif_executed_instructions_count(),
+                                ax.verif_hooks_running() as u8
+                            ))
+                        });
+                        if let Some((r, v)) = edit {
+                            ax.reg_write_64(r, v)?;
+                        }
+                        match outcome.as_str() {
+                            "error" => Err(AxError::from("scripted hook error").into()),
+                            "handled" => Ok(HookResult::Handled),
+                            "stop" => {
+                                ax.stop();
+                                Ok(HookResult::Unhandled)
+                            }
+                            "stophandled" => {
+                                ax.stop();
+                                Ok(HookResult::Handled)
+                            }
+                            _ => Ok(HookResult::Unhandled),
+                        }
+                    });
+                let cb: &'static _ = Box::leak(cb);
+                let ax = self.ax();
+                Some(res_unit(match *phase {
+                    "before" => ax.hook_before_mnemonic_native(m, cb),
+                    "after" => ax.hook_after_mnemonic_native(m, cb),
+                    _ => return None,
+                }))
+            }
+            ["syscalls", l] => {
+                let mut v = vec![];
+                for n in l.split(',') {
+                    v.push(match n {
+                        "12" => Syscall::Brk,
+                        "22" => Syscall::Pipe,
+                        "60" => Syscall::Exit,
+                        "158" => Syscall::ArchPrctl,
+                        _ => return None,
+                    });
+                }
+                Some(res_unit(self.ax().handle_syscalls(v)))
+            }
+            ["stack", n] => {
+                let n = parse_hex(n)?;
+                Some(match self.ax().init_stack(n) {
+                    Ok(a) => format!("ok {:x}", a),
+                    Err(_) => "err".into(),
+                })
+            }
+            ["stackps", n, argv, envp] => {
+                let n = parse_hex(n)?;
+                let conv = |s: &str| -> Option<Vec<String>> {
+                    if s == "-" {
+                        return Some(vec![]);
+                    }
+                    s.split(',').map(|h| String::from_utf8(unhex(h)?).ok()).collect()
+                };
+                let (argv, envp) = (conv(argv)?, conv(envp)?);
+                Some(match self.ax().init_stack_program_start(n, argv, envp) {
+                    Ok(a) => format!("ok {:x}", a),
+                    Err(_) => "err".into(),
+                })
+            }
+            ["ldreg", r, a] => {
+                let r = reg_by_name(r)?;
+                let a = parse_hex(a)?;
+                let ax = self.ax();
+                Some(match ax.mem_read_64(a) {
+                    Ok(v) => {
+                        ax.reg_write_64(r, v).ok()?;
+                        format!("ok {:x}", v)
+                    }
+                    Err(_) => "err".into(),
+                })
+            }
+            ["sys"] => {
+                let ax = self.ax();
+                let (bs, bl) = ax.verif_brk();
+                let p = ax.verif_pipes();
+                // pipes in creation order are not recoverable from the maps: sorted by read end on both sides
+                Some(format!(
+                    "brk={:x},{:x} pipes={}",
+                    bs,
+                    bl,
+                    if p.is_empty() {
+                        "none".to_string()
+                    } else {
+                        p.iter().map(|(r, w, c)| format!("{:x},{:x},{}", r, w, hex(c))).collect::<Vec<_>>().join(";")
+                    }
+                ))
             }
             ["regs"] => {
                 let ax = self.ax();
